@@ -430,13 +430,15 @@ class NetCDFVariable(NetCDFOnDisk):
         return self.values[()].__array__ # returns a numpy array
     
 def _within_bounds(idx, size, n):
-    """ True if the position index `idx`, which addresses `n` elements, addresses a proper part
-    of an axis of current length `size` (False when it reaches beyond the end, or spans the whole axis)
+    """ True if the position index `idx`, through which `n` elements are assigned, stays within
+    an axis of current length `size` (False when it reaches beyond the end, i.e. extends the axis)
     """
     if type(idx) is slice:
-        if idx == slice(None):
-            return False
-        return len(range(*idx.indices(size))) == n
+        if idx.step is not None and idx.step < 0:
+            return True # cannot extend
+        if idx.stop is None:
+            return n <= len(range(*idx.indices(size))) # open-ended: extends if more elements are supplied than remain
+        return idx.stop <= size
     idx = np.asarray(idx)
     if idx.dtype.kind == 'b':
         return idx.size <= size
